@@ -41,6 +41,20 @@ def main():
         print('UNDECIDED property=%s %s' % (args.prop, e))
         traceback.print_exc()
         rc = 2
+        # the deductive engine could not process the current code; a bounded stand-in, where the property has
+        # one, can still exhibit a concrete failing input (that is a violation, not an engine limit)
+        try:
+            if hasattr(mod, 'bounded'):
+                s2 = oblig.Session(args.prop, tier, seed)
+                mod.bounded(s2)
+                bad = [ob for ob in s2.obs if ob.kind == 'bounded']
+                if bad:
+                    s2.notes.append('deductive part undecided: %s' % e)
+                    s2.decided('engine/deductive-part-undecided', 'proved', 'none', detail=str(e), kind='totality')
+                    rc = s2.finish('./check %s --tier %s' % (args.prop, tier), level='other', trusted_base=getattr(mod, 'TRUSTED', None),
+                                   extra=dict(explanation='deductive engine undecided on the current code (%s); bounded stand-in found a failing input' % e))
+        except Exception:
+            traceback.print_exc()
     except oblig.CheckerError as e:
         print('CHECKER-ERROR property=%s %s' % (args.prop, e))
         traceback.print_exc()
